@@ -494,13 +494,35 @@ Definition kind_view (k : ekind) : view :=
 (* ================================================================ *)
 (* 6. Case checkers                                                  *)
 
+(* one Syncer.Sync with a caller-built selector: no segmentation, no early return *)
+Definition sync_sel (w : world) (v : view) (stop : option cid) (lim : option nat) (root : cid)
+           (st : substate) : callout :=
+  let o := handle_plain w v stop lim HSilent root (s_store st) in
+  match h_err o with
+  | Some _ => CO RErr (h_hooks o) (h_reqs o) None (ST (s_latest st) (h_store o))
+  | None => CO RNil (h_hooks o) (h_reqs o) None (ST (s_latest st) (h_store o))
+  end.
+
 Inductive call :=
 | CAd (a : adcall)
 | CEntries (ent : option cid) (depth : Z) (scoped : option hook_kind)
 | COne (ent : option cid)
 | CAll (ent : option cid) (scoped : option hook_kind)
 | CRemove      (* Subscriber.RemoveHandler(publisher) *)
-| CIdle.       (* the idle-handler cleaner removes the publisher's handler *)
+| CIdle        (* the idle-handler cleaner removes the publisher's handler *)
+| CSel (v : view) (stop : option cid) (lim : option nat) (root : cid)
+    (* Syncer.Sync called directly with a selector built by the exported builders
+       (DagsyncSelector, ExploreRecursiveWithStop, ExploreRecursiveWithStopNode): the sequence
+       as a view, the stop link, the recursion limit; the Sync's own block hook records *)
+| CHide (hidden : list cid).   (* not a call: from now on the publisher serves every block of
+                                  the world except these (a block withdrawn / restored) *)
+
+(* the publisher's served set may change between calls *)
+Definition step_world (w : world) (c : call) : world :=
+  match c with
+  | CHide l => WORLD (w_dag w) (filter (fun x => negb (memb x l)) (map fst (w_dag w)))
+  | _ => w
+  end.
 
 (* removing a publisher's handler touches neither the latest sync nor the store: both are
    state of the Subscriber, not of the handler *)
@@ -513,7 +535,8 @@ Definition run_call (w : world) (cfg : subcfg) (c : call) (st : substate) : call
   | CEntries e d h => sync_entries w cfg e d h st
   | COne e => sync_one w cfg e st
   | CAll e h => sync_all w cfg e h st
-  | CRemove | CIdle => CO RNil [] [] None st
+  | CSel v stop lim root => sync_sel w v stop lim root st
+  | CRemove | CIdle | CHide _ => CO RNil [] [] None st
   end.
 
 Fixpoint run_seq (w : world) (cfg : subcfg) (l : list call) (st : substate)
@@ -521,8 +544,9 @@ Fixpoint run_seq (w : world) (cfg : subcfg) (l : list call) (st : substate)
   match l with
   | [] => ([], st)
   | c :: r =>
-    let o := run_call w cfg c st in
-    let '(outs, st') := run_seq w cfg r (r_state o) in
+    let w' := step_world w c in
+    let o := run_call w' cfg c st in
+    let '(outs, st') := run_seq w' cfg r (r_state o) in
     ((c, o) :: outs, st')
   end.
 
@@ -559,8 +583,9 @@ Fixpoint run_calls (w : world) (cfg : subcfg) (l : list (call * obs)) (st : subs
   match l with
   | [] => (true, st, [])
   | (c, b) :: r =>
-    let o := run_call w cfg c st in
-    let '(ok, st', evs) := run_calls w cfg r (r_state o) in
+    let w' := step_world w c in
+    let o := run_call w' cfg c st in
+    let '(ok, st', evs) := run_calls w' cfg r (r_state o) in
     (obs_ok cfg o b && ok, st', match r_event o with Some e => e :: evs | None => evs end)
   end.
 
